@@ -1,4 +1,105 @@
-import Mav.Spec.Writer
+import Mav.Proofs.Writer
+/-
+  C09 — originated frames. Property theorems only.
+  Model: `swInitialize` / `swWrite` (pkg/streamwriter, after `fix: a refused write must not consume a sequence
+  number`); Spec: `Spec.swWrite` (Mav/Spec/Writer.lean), written from the property text.
+-/
 namespace Mav.C09
-theorem placeholder : True := trivial
+open Mav Spec
+
+/-- **C09 (refusals at initialisation).** A missing version, a zero system id, or a key on a v1 link. -/
+theorem init_refuses (c : SWCfg) :
+    (c.version = 0 → swInitialize c = .error .noVersion) ∧
+    (c.version ≠ 0 → c.sysId = 0 → swInitialize c = .error .sysId) ∧
+    (c.version ≠ 0 → c.sysId ≠ 0 → c.key.isSome → c.version ≠ 2 → swInitialize c = .error .keyNeedsV2) := by
+  refine ⟨?_, ?_, ?_⟩
+  · intro h; simp [swInitialize, h]
+  · intro h1 h2; simp [swInitialize, h1, h2]
+  · intro h1 h2 h3 h4
+    have : ¬ (c.sysId < 1) := by
+      intro hlt
+      apply h2
+      have := UInt8.lt_iff_toNat_lt.mp hlt
+      apply UInt8.toNat_inj.mp
+      simp at this ⊢; omega
+    simp [swInitialize, h1, this, h3, h4]
+
+/-- **C09 (component id default).** An accepted configuration keeps every field and sets component id 1 when unset. -/
+theorem comp_default (c c' : SWCfg) (h : swInitialize c = .ok c') :
+    c' = { c with compId := if c.compId < 1 then 1 else c.compId } := by
+  unfold swInitialize at h
+  split at h
+  · simp at h
+  · split at h
+    · simp at h
+    · split at h
+      · simp at h
+      · simp only [Except.ok.injEq] at h; exact h.symm
+
+theorem init_gives_domain (c0 c : SWCfg) (h : swInitialize c0 = .ok c) (hv : c0.version ≤ 2) : CfgOk c :=
+  initialize_ok c0 c h hv
+
+/-- **C09 (one write).** For every accepted configuration, every dialect, every writer state whose counter equals
+    the number of accepted writes mod 256, every clock value before 2104 and every message of the domain, the
+    model's write returns exactly what the specification prescribes — the error for a refused write, else the
+    frame bytes carrying the configured system/component id, version, compat flags 0, the spec checksum with the
+    message's CRC_EXTRA, sequence number `count mod 256`, and the signature block when a key is configured —
+    and the counter advances exactly when the write was accepted. -/
+theorem write_refines_spec (H : Bytes → Bytes) (hH : ∀ x, 6 ≤ (H x).length) (d : WDialect) (c : SWCfg) (hc : CfgOk c)
+    (st : SWState) (count : Nat) (hseq : st.nextSeq = UInt8.ofNat (count % 256)) (t : UInt64) (ht : t.toNat < 2 ^ 48 * 10000)
+    (m : Mav.Msg) (hm : ∀ dd, d = some dd → MsgOk dd c m) :
+    (swWrite H d c st t m).2 = (Spec.swWrite H d c count t m).2 ∧
+    (swWrite H d c st t m).1.nextSeq = UInt8.ofNat ((Spec.swWrite H d c count t m).1 % 256) :=
+  swWrite_refines H hH d c hc st count hseq t ht m hm
+
+/-- results of a history of writes (clock value, message) -/
+def runModel (H : Bytes → Bytes) (d : WDialect) (c : SWCfg) : SWState → List (UInt64 × Mav.Msg) → List (Except WErr Bytes)
+  | _, [] => []
+  | st, (t, m) :: r => (swWrite H d c st t m).2 :: runModel H d c (swWrite H d c st t m).1 r
+
+def runSpec (H : Bytes → Bytes) (d : WDialect) (c : SWCfg) : Nat → List (UInt64 × Mav.Msg) → List (Except WErr Bytes)
+  | _, [] => []
+  | n, (t, m) :: r => (Spec.swWrite H d c n t m).2 :: runSpec H d c (Spec.swWrite H d c n t m).1 r
+
+/-- **C09 (every history).** Over any number of writes — accepted and refused, in any order, unbounded length, so
+    across the 255→0 wrap — the writer's outputs equal the specification's: no gap, no repeat. -/
+theorem history_refines_spec (H : Bytes → Bytes) (hH : ∀ x, 6 ≤ (H x).length) (d : WDialect) (c : SWCfg) (hc : CfgOk c)
+    (hist : List (UInt64 × Mav.Msg))
+    (hdom : ∀ tm ∈ hist, tm.1.toNat < 2 ^ 48 * 10000 ∧ ∀ dd, d = some dd → MsgOk dd c tm.2)
+    (st : SWState) (count : Nat) (hseq : st.nextSeq = UInt8.ofNat (count % 256)) :
+    runModel H d c st hist = runSpec H d c count hist := by
+  induction hist generalizing st count with
+  | nil => rfl
+  | cons tm r ih =>
+    obtain ⟨t, m⟩ := tm
+    have h0 := hdom (t, m) (by simp)
+    have h := swWrite_refines H hH d c hc st count hseq t h0.1 m h0.2
+    simp only [runModel, runSpec, h.1]
+    congr 1
+    exact ih (fun x hx => hdom x (by simp [hx])) _ _ h.2
+
+/-- in the specification the counter counts accepted writes: a refusal leaves it, an emission adds one -/
+theorem spec_counts_accepted (H : Bytes → Bytes) (d : WDialect) (c : SWCfg) (n : Nat) (t : UInt64) (m : Mav.Msg) :
+    (∀ e, (Spec.swWrite H d c n t m).2 = .error e → (Spec.swWrite H d c n t m).1 = n) ∧
+    (∀ bs, (Spec.swWrite H d c n t m).2 = .ok bs → (Spec.swWrite H d c n t m).1 = n + 1) := by
+  have key : ∀ r, Spec.swWrite H d c n t m = r →
+      (∀ e, r.2 = .error e → r.1 = n) ∧ (∀ bs, r.2 = .ok bs → r.1 = n + 1) := by
+    intro r h
+    unfold Spec.swWrite at h
+    repeat' (split at h)
+    all_goals (subst h; simp)
+  exact key _ rfl
+
+/-- a v1 link refuses ids above 255 (spec side, matched by `write_refines_spec`) -/
+theorem spec_v1_refuses_big_id (H : Bytes → Bytes) (dd : UInt32 → Option WCodec) (c : SWCfg) (hv : c.version = 1)
+    (n : Nat) (t : UInt64) (id : UInt32) (p : Bytes) (codec : WCodec) (hd : dd id = some codec) (h : id > 0xFF) :
+    Spec.swWrite H (some dd) c n t (.raw id p) = (n, .error .v1Id) := by
+  simp [Spec.swWrite, hd, Msg.id, hv, h]
+
+/- non-vacuity: an accepted configuration and a message of the domain exist -/
+example : CfgOk { version := 2, sysId := 1, compId := 1, key := some [1] } :=
+  ⟨Or.inr rfl, by decide, fun _ => rfl⟩
+example : MsgOk (fun _ => some { crcExtra := 50, encode := fun _ _ => .ok [1, 2, 3] }) { version := 2, sysId := 1, compId := 1 } (.raw 0 [1]) := by
+  simp [MsgOk]
+
 end Mav.C09
